@@ -405,8 +405,13 @@ def main(argv):
         for chk in man["checks"]:
             tmp = f"/tmp/pyvc_names_{chk['property_id']}.json"
             env = dict(os.environ, PYVC_NAMES=tmp)
-            subprocess.call([os.path.join(VERIF, "check"), chk["property_id"], "quick"], env=env,
-                            stdout=subprocess.DEVNULL)
+            r = subprocess.run([os.path.join(VERIF, "check"), chk["property_id"], "quick"], env=env,
+                               capture_output=True, text=True)
+            last = (r.stdout.strip().splitlines() or [""])[-1]
+            print(f"{chk['property_id']} rc={r.returncode} {last}", flush=True)
+            if r.returncode != 0:
+                # a baseline is only meaningful for a tree on which every check passes
+                print("\n".join(l for l in r.stdout.splitlines() if l.startswith(("VIOLATION", "UNDECIDED", "CHECKER")))[:2000])
             if os.path.exists(tmp):
                 names |= set(json.load(open(tmp)))
                 os.unlink(tmp)
